@@ -128,4 +128,10 @@ CHECKS = {
         "text": "Every public write operation x prior content class x every statement position x {IntegrityError, InterfaceError, OperationalError, Python exception} and process death (os._exit in a forked child) before/after statements and around commit: afterwards the file, read through an independent connection, must equal the pre-state or the complete post-state, be referentially intact, and the same operation repeated without fault must succeed (or be refused exactly as from the pre-state).",
         "note": "Trusted: interposition on the module attribute pygaps.parsing.sqlite.sqlite3 (exit 2 if it stops taking effect); a fault = statement k not executed and the sqlite3 exception raised; a crash inside the commit itself is explored in the model only; SQLite's own journal atomicity is assumed.",
     },
+    "C15": {
+        "level": "model_checking",
+        "technique": "TLA+ access-plan model (spec/AccessPlan.tla: per-analysis list of accessor calls with their literal unit arguments) composed with the IsoAccess conversion pipelines and model-checked exhaustively by TLC over all permanent conversions of sample and reference (AccessPlanMC: StaysValid, ClassExact, Invariance); bound to the code by a TLC oracle (AccessPlanOracle: classes and symbolic expected factors), TLC trace validation of recorded runs (InvarianceTrace, DecFloat) and a pointwise check that every array reaching the numeric cores equals the stored data times the model's monomial",
+        "text": "TLC proves on the label graph that each entry point's access plan delivers representation-independent inputs except in the classes of an exact closed-form table; every entry point (27 incl. option variants) is then run on real isotherms permanently converted to a TLC-supplied covering set of representations (thorough: all units and products), JSON round-tripped and loading-scaled; every result key is judged by the specification: equal, changed by exactly the unit monomial, scaled by the loading factor, windows identical, refused.",
+        "note": "Trusted: Canon definitions in spec/Units.tla; ResultDims and TolExp tables (default 1e-6; HK widths 1e-4, distribution 1e-2; virial 1e-3; initial_enthalpy_comp 1e-2; psd_dft kernel_loading 1e-1); Atoms from adsorbate/material property methods; float payload independence sampled over fixtures; psd_dft results are judged only on the arrays reaching the kernel fit. Five known findings (alpha_s reference abscissae, isosteric volume basis, three fit scale-covariance entries).",
+    },
 }
